@@ -45,4 +45,23 @@ DESCRIBE = {
         ],
         "expected_probes": ["rng-scripted-draw", "rng-all-equal-draws", "scale-nonpositive"],
     },
+    "C10": {
+        "budgets": {"quick": (1200, 240), "thorough": (150000, 3300)},
+        "rule": ("one evaluation = one seeded run: memo tables restored to import-time content, 1-3 simulated caller threads each with its own "
+                 "request list (rule / nodes / weights for all four families with colliding and neighbouring sizes, Integrate.scalar/function/lenght, "
+                 "knot removals and degree reductions as table consumers, invalid sizes, failing integrands), interleaved at Python-line granularity "
+                 "inside heavy.py/calculus.py by a seeded scheduler, with at most one asynchronous exception injected at the k-th line of a request; "
+                 "every answered request and a final sweep over all families are judged for exactness (moments), equality with the cold answer and "
+                 "closed forms; non-trivial = at least one answered request AND at least one fired fault; distinct = distinct event-log digest"),
+        "real": REAL_ALL,
+        "stubs": ["simulated caller threads (real threads, baton passing; the seeded scheduler decides who runs at every line event)",
+                  "asynchronous-fault injector (exception raised from the sys.settrace local trace function)",
+                  "user integrands / weight functions that raise at a seeded call", "memo-table reset between runs (class attributes restored from a pristine deep copy)"],
+        "assumptions": _COMMON_ASSUME + [
+            "interleavings are explored at Python line granularity inside heavy.py and calculus.py; switches inside a single bytecode or inside numpy C code, and free-threaded execution, are out of reach",
+            "float rules are judged to 1e-11 absolute on the moments (measured worst case on the pinned tree ~2e-14 up to n = 15) and 1e-13 relative against the cold answer",
+            "a request that raised (invalid size, injected fault) imposes nothing on its own result; only later requests are judged",
+        ],
+        "expected_probes": ["two-threads-inside-same-fill", "async-fault-inside-fill", "async-fault-after-store", "async-fault-idle"],
+    },
 }
